@@ -68,11 +68,12 @@ def variant_count(fl, test):
     return None
 
 
-def controlling_atoms(fl, bb):
-    """[(atom test (names expanded), value taken)] for all switches bb is transitively control-dependent on"""
+def controlling_atoms(fl, bb, direct=False):
+    """[(atom test (names expanded), value taken)] for all switches bb is transitively control-dependent on
+    (direct=True: only the switches it is immediately control-dependent on)"""
     b = fl.b
     out = []
-    for (a, succ) in b.transitive_control_deps(bb):
+    for (a, succ) in (sorted(b.control_deps().get(bb, ())) if direct else b.transitive_control_deps(bb)):
         at = fl.atom(a)
         if not at:
             continue
